@@ -111,13 +111,25 @@ GraftKids(t, g, schema, prune, ta, p1, kids, j, created, skipped, acc) ==
             ELSE GraftKids(RemoveChild(t1, p1, lab), g, schema, prune, ta, p1, kids, j + 1, created, skipped + 1, acc)
 
 RECURSIVE GraftStack(_, _, _, _, _, _)
+RECURSIVE ReAdd(_, _, _, _, _, _, _)
+\* when every branch of a grafted decision was pruned, pruning is undone for this node (the decision must keep children):
+\* the skipped children are added again and explored
+ReAdd(t, g, schema, ta, p1, kids, j) ==
+    IF j > Len(kids) THEN [t |-> t, push |-> <<>>]
+    ELSE LET c1 == NextKey(t)
+             t1 == AddChild(t, p1, kids[j].l, Upd(schema, g.nodes[kids[j].c].leaf, AffOf(g.nodes[kids[j].c]), ta))
+             r == ReAdd(t1, g, schema, ta, p1, kids, j + 1)
+         IN [t |-> r.t, push |-> <<<<kids[j].c, c1>>>> \o r.push]
 GraftStack(t, g, schema, prune, ta, stack) ==
     IF stack = <<>> THEN t
     ELSE LET top == stack[Len(stack)]
              rest == SubSeq(stack, 1, Len(stack) - 1)
-             r == GraftKids(t, g, schema, prune, ta, top[2], KidsSeq(g.nodes[top[1]]), 1, 0, 0, [push |-> <<>>, last |-> -1])
-             t2 == IF r.created = 1 /\ r.created + r.skipped = t.k THEN MergeChild(r.t, top[2], r.last) ELSE r.t
-         IN GraftStack(t2, g, schema, prune, ta, rest \o r.push)
+             kids == KidsSeq(g.nodes[top[1]])
+             r == GraftKids(t, g, schema, prune, ta, top[2], kids, 1, 0, 0, [push |-> <<>>, last |-> -1])
+         IN IF r.created = 0 /\ r.skipped > 0
+            THEN LET ra == ReAdd(r.t, g, schema, ta, top[2], kids, 1) IN GraftStack(ra.t, g, schema, prune, ta, rest \o ra.push)
+            ELSE LET t2 == IF r.created = 1 /\ r.created + r.skipped = t.k THEN MergeChild(r.t, top[2], r.last) ELSE r.t
+                 IN GraftStack(t2, g, schema, prune, ta, rest \o r.push)
 
 RECURSIVE GraftTerminals(_, _, _, _, _, _)
 GraftTerminals(t, g, schema, prune, terms, j) ==
@@ -153,6 +165,74 @@ ReduceGo(t, order, j) ==
                    THEN ReduceGo(MergeChild(RemoveChild(t, n, 1), n, 0), order, j - 1)
                    ELSE ReduceGo(t, order, j - 1)
 Reduce(t) == LET order == BfsOrder(t, <<t.root>>) IN ReduceGo(t, order, Len(order))
+
+
+\* ------------------------------------------------------------------ infeasible_elimination
+(* One step per DFS item, exactly as the Rust loop: cached states short-cut, phase_inh (inherit the parent's      *)
+(* witnesses that satisfy the new half-space), phase_two (LP, here the ideal oracle on the closed path region),     *)
+(* skip_subtree + deferred removal for infeasible nodes, forward_if_redundant after the last sibling.              *)
+(* phase_one (mirror heuristic) only ever produces witnesses inside the region, i.e. the same verdict as the LP.    *)
+(* Witness points are half-integer grid points (scaled by 2); the implementation's LP returns other points -        *)
+(* cached points are compared by the property formulas (containment), never by equality.                            *)
+Reverse(sq) == [j \in 1..Len(sq) |-> sq[Len(sq) + 1 - j]]
+DfsNew(t) == [st |-> <<[depth |-> 0, idx |-> t.root, rem |-> 0]>>, last |-> 0]
+DfsNext(t, c) ==
+    LET e == c.st[Len(c.st)]
+        ks == KidsSeq(t.nodes[e.idx])
+        push == Reverse([j \in 1..Len(ks) |-> [depth |-> e.depth + 1, idx |-> ks[j].c, rem |-> Len(ks) - j]])
+    IN [c |-> [st |-> SubSeq(c.st, 1, Len(c.st) - 1) \o push, last |-> Len(ks)], item |-> e]
+DfsSkip(c) == [st |-> SubSeq(c.st, 1, Len(c.st) - c.last), last |-> 0]
+
+LabelOf(t, n) == (CHOOSE sl \in 1..t.k : t.nodes[t.nodes[n].p].ch[sl] = n) - 1
+WGrid(d) == VecsOver(-8..8, d)                                  \* half-integers in [-4, 4]^d, scaled by 2
+WitnessOf(C, d) ==
+    LET S == {x \in WGrid(d) : SatAll(C, x, 2)}
+    IN IF S = {} THEN <<>> ELSE <<CHOOSE x \in S : \A y \in S : Dot(x, x) <= Dot(y, y)>>
+NewState(t, p, n) ==
+    LET lab == LabelOf(t, n)
+        half == ClosedConsOf(t.nodes[p], lab)
+        inh == IF t.nodes[p].st = "W" THEN SelectSeq(t.nodes[p].w, LAMBDA x : SatAll(half, x, 2)) ELSE <<>>
+        C == ClosedRegion(t, n)
+    IN IF inh # <<>> THEN [st |-> "W", w |-> inh]
+       ELSE IF ~Feas(C, t.dim) THEN [st |-> "X", w |-> <<>>]
+       ELSE LET ws == WitnessOf(C, t.dim) IN IF ws = <<>> THEN [st |-> "F", w |-> <<>>] ELSE [st |-> "W", w |-> ws]
+
+RECURSIVE RemoveLabels(_, _, _, _)
+RemoveLabels(t, p, labs, j) == IF j > Len(labs) THEN t ELSE RemoveLabels(RemoveChild(t, p, labs[j]), p, labs, j + 1)
+ForwardIfRedundant(t, p) ==
+    LET ks == KidsSeq(t.nodes[p])
+        feas == SelectSeq(ks, LAMBDA e : t.nodes[e.c].st \in {"F", "W"})
+        inf == SelectSeq(ks, LAMBDA e : t.nodes[e.c].st = "X")
+    IN IF Len(feas) # 1 \/ Len(inf) # t.k - 1 THEN t
+       ELSE LET t1 == RemoveLabels(t, p, [j \in 1..Len(inf) |-> inf[j].l], 1)
+            IN IF p = t.root THEN t1 ELSE MergeChild(t1, p, feas[1].l)
+
+\* deferred removal of the infeasible nodes; a decision never loses its last child (it would turn into a terminal
+\* holding a predicate)
+RECURSIVE FinalRemove(_, _, _)
+FinalRemove(t, rm, j) ==
+    IF j > Len(rm) THEN t
+    ELSE LET lab == rm[j][1]  p == rm[j][2] IN
+         IF p \in Occ(t) /\ t.nodes[p].ch[lab + 1] # NONE /\ NumChildren(t.nodes[p]) > 1
+         THEN FinalRemove(RemoveChild(t, p, lab), rm, j + 1)
+         ELSE FinalRemove(t, rm, j + 1)
+
+RECURSIVE ElimLoop(_, _, _)
+ElimLoop(t, c, rm) ==
+    IF c.st = <<>> THEN FinalRemove(t, rm, 1)
+    ELSE LET r == DfsNext(t, c)
+             n == r.item.idx
+         IN IF n = t.root THEN ElimLoop(t, r.c, rm)
+            ELSE IF t.nodes[n].st = "X" THEN ElimLoop(t, DfsSkip(r.c), rm)
+            ELSE IF t.nodes[n].st \in {"F", "W"} THEN ElimLoop(t, r.c, rm)
+            ELSE LET p == t.nodes[n].p
+                     s == NewState(t, p, n)
+                     c2 == IF s.st = "X" THEN DfsSkip(r.c) ELSE r.c
+                     rm2 == IF s.st = "X" THEN Append(rm, <<LabelOf(t, n), p>>) ELSE rm
+                     t2 == SetNode(t, n, [t.nodes[n] EXCEPT !.st = s.st, !.w = s.w])
+                     t3 == IF r.item.rem = 0 THEN ForwardIfRedundant(t2, p) ELSE t2
+                 IN ElimLoop(t3, c2, rm2)
+Eliminate(t) == ElimLoop(t, DfsNew(t), <<>>)
 
 \* ------------------------------------------------------------------ building trees from abstract trees
 (* abstract tree: [t |-> "L", a |-> aff] | [t |-> "D", a |-> predicate aff, kids |-> Seq(K) of abstract trees] | [t |-> "M"] *)
